@@ -96,6 +96,7 @@ func (ex *Exec) guardCheckMap(st *State, m Val, instr ssa.Instruction, write boo
 	}
 	goal := st.heldGoal(lockTag(o.root, g.lock), m.Base)
 	ex.record(st, fmt.Sprintf("%s/guard:%s.%s@%s", ex.rootName, g.typ, g.field, siteOf(instr)), "guard", goal, "access to guarded map without its lock")
+	ex.atomicRequire(st, "map-access", siteOf(instr))
 }
 
 func (ex *Exec) guardCheckMapVal(st *State, m Val, write bool, c *ssa.CallCommon) {
@@ -109,6 +110,7 @@ func (ex *Exec) guardCheckMapVal(st *State, m Val, write bool, c *ssa.CallCommon
 	}
 	goal := st.heldGoal(lockTag(o.root, g.lock), m.Base)
 	ex.record(st, fmt.Sprintf("%s/guard:%s.%s@delete:%s", ex.rootName, g.typ, g.field, shortFn(st.top().fn)), "guard", goal, "delete on guarded map without its lock")
+	ex.atomicRequire(st, "map-delete", shortFn(st.top().fn))
 }
 
 func lockIdent(v Val) (tag, base string, ok bool) {
@@ -139,6 +141,16 @@ func externLock(ex *Exec, st *State, c *callCtx) {
 		i := strings.Index(h, "@")
 		if r1, r2 := ex.w.lockRank(h[:i]), ex.w.lockRank(tag); r1 >= 0 && r2 >= 0 && r1 > r2 {
 			ex.record(st, fmt.Sprintf("%s/lockorder:%s-after-%s@%s", ex.rootName, tag, h[:i], c.site), "lockorder", "false", "lock acquired against the declared order")
+		}
+	}
+	if ex.atom != nil && ex.atom.ok {
+		if tag == ex.atom.tag {
+			st.atomicAcq++
+			if st.atomicAcq > 1 {
+				ex.record(st, fmt.Sprintf("%s/atomic:once@%s", ex.rootName, c.site), "atomic", "false", "the operation's mutex is acquired a second time: the operation is split into several critical sections")
+			}
+		} else {
+			ex.atomicRequire(st, "lock:"+tag, c.site)
 		}
 	}
 	st.locks = append(append([]string(nil), st.locks...), tag+"@"+base)
@@ -232,4 +244,75 @@ func (w *World) lockInvFor(tag string) *lockInv {
 		}
 	}
 	return nil
+}
+
+// ---- atomicity of public operations (C03) --------------------------------------------------------------
+// Contract clause `atomic <mutexField> owns <Type>,...` on a method: the receiver's mutex is acquired exactly
+// once, and every acquisition of another lock, every access to a guarded map and every access to a field of
+// an owned type happens while it is held. Operations that satisfy this run entirely inside one critical
+// section of one mutex and are therefore serialisable in lock-acquisition order.
+
+type atomicSpec struct {
+	tag, base string
+	owns      []string
+	ok        bool
+}
+
+func (ex *Exec) atomicInit(st *State) {
+	ct := ex.contract
+	if ct == nil || ct.atomic == "" || ex.atom != nil {
+		return
+	}
+	fs := strings.Fields(ct.atomic)
+	a := &atomicSpec{}
+	ex.atom = a
+	if len(ex.root.Params) == 0 {
+		return
+	}
+	recv := ex.entryVals[ex.root.Params[0].Name()]
+	rt := derefType(ex.root.Params[0].Type())
+	if s, ok := rt.Underlying().(*types.Struct); ok {
+		for i := 0; i < s.NumFields(); i++ {
+			if s.Field(i).Name() == fs[0] {
+				a.ok = true
+			}
+		}
+	}
+	a.tag, a.base = lockTag(rt, fs[0]), recv.T
+	for i := 1; i < len(fs); i++ {
+		if fs[i] == "owns" {
+			continue
+		}
+		for _, t := range strings.Split(fs[i], ",") {
+			if t != "" {
+				a.owns = append(a.owns, t)
+			}
+		}
+	}
+	if !a.ok {
+		ob := ex.obl(ex.rootName+"/atomic:lock-field", "structural")
+		ob.VCs = append(ob.VCs, VC{goal: "false", note: "the operation is declared atomic under mutex field " + fs[0] + " but the receiver type has no such field: its accesses to shared state are spread over several critical sections of different locks"})
+	}
+}
+
+func (ex *Exec) atomicRequire(st *State, what, site string) {
+	if ex.atom == nil || !ex.atom.ok {
+		return
+	}
+	ex.record(st, fmt.Sprintf("%s/atomic:%s@%s", ex.rootName, what, site), "atomic", st.heldGoal(ex.atom.tag, ex.atom.base), what+" outside the operation's critical section")
+}
+
+func (ex *Exec) atomicOwned(st *State, root types.Type, base string, site string) {
+	if ex.atom == nil || !ex.atom.ok || root == nil {
+		return
+	}
+	name := typeBaseName(root)
+	for _, o := range ex.atom.owns {
+		if o == name {
+			if strings.HasPrefix(base, "new_") && st.knownNonNil(base) && !st.published[base] {
+				return // not yet shared
+			}
+			ex.atomicRequire(st, "access-to-"+name, site)
+		}
+	}
 }
